@@ -229,6 +229,7 @@ func compileRegexp(patternStr, flags string) (p *regexpPattern, err error) {
 			case 'u':
 				if unicode {
 					invalidFlags()
+					return
 				}
 				unicode = true
 			default:
